@@ -119,7 +119,14 @@ func extractStages() {
 	s.boolean("depthCutShape", strings.Contains(is, "if!domainscrawl.Enabled()&&item.GetDepthWithoutRedirections()>2{") ||
 		strings.Contains(is, "if!domainscrawl.Enabled()&&item.GetDepthWithoutRedirections()"))
 	s.boolean("depthOneHtmlRule", strings.Contains(is, `}elseif!domainscrawl.Enabled()&&(item.GetDepthWithoutRedirections()==1&&strings.Contains(item.GetURL().GetMIMEType().String(),"html")){`))
-	s.boolean("disableAssetsRule", strings.Contains(is, "}elseifconfig.Get().DisableAssetsCapture&&!domainscrawl.Enabled(){"))
+	dar := "unknown"
+	switch {
+	case strings.Contains(is, "}elseifconfig.Get().DisableAssetsCapture&&!domainscrawl.Enabled()&&config.Get().MaxHops==0{"):
+		dar = "whenNoHops"
+	case strings.Contains(is, "}elseifconfig.Get().DisableAssetsCapture&&!domainscrawl.Enabled(){"):
+		dar = "always" // completes the node before the outlink extraction even when hops are allowed
+	}
+	s.str("disableAssetsRule", dar, dar != "unknown")
 	s.boolean("only200Extracted", strings.Contains(is, "ifitem.GetURL().GetResponse()!=nil&&item.GetURL().GetResponse().StatusCode==200{"))
 	s.boolean("assetsBecomeChildren", strings.Contains(is, "newChild:=models.NewItem(uuid.New().String(),assets[i],\"\")err=item.AddChild(newChild,models.ItemGotChildren)"))
 	s.boolean("outlinkDomainsCrawlRule", strings.Contains(is, "ifdomainscrawl.Enabled()&&domainscrawl.Match(newOutlinks[i].Raw){") &&
